@@ -19,6 +19,7 @@ import (
 	"go/token"
 	"os"
 	"strings"
+	"time"
 
 	"mellium.im/xmlstream"
 
@@ -64,7 +65,11 @@ func run(r *common.Run) error {
 			if err != nil {
 				return err
 			}
-			return c.replay(lines)
+			err = c.replay(lines)
+			// goroutines the library started may still be running: a late panic must hit
+			// this process, not go unnoticed
+			time.Sleep(300 * time.Millisecond)
+			return err
 		default:
 			return fmt.Errorf("unknown child group %q", group)
 		}
@@ -260,6 +265,11 @@ func (c *ctx) skeletons() {
 	r.Extra["skeletons_checked"] = n
 	r.Extra["sites"] = sites
 	r.Extra["allow_list"] = trusted
+	var gos []string
+	for _, g := range c.an.Gos {
+		gos = append(gos, fmt.Sprintf("%s:%d %s waits-afterwards=%v", g.File, g.Line, g.Fn, g.Joined))
+	}
+	r.Extra["goroutines_started_in_scope"] = gos
 	r.Extra["generated_files_skipped"] = c.an.Generated
 	r.Extra["files_left_to_other_properties"] = c.an.Skipped
 }
